@@ -194,18 +194,12 @@ func (fd *Client) UpdateTable(ctx context.Context, input *dynamodb.UpdateTableIn
 		return nil, &types.ResourceNotFoundException{Message: aws.String("Cannot do operations on a non-existent table")}
 	}
 
-	if input.AttributeDefinitions != nil {
-		if err := table.UpdateAttributeDefinition(mapDynamoToTypesAttributeDefinitionSlice(input.AttributeDefinitions)); err != nil {
-			return nil, mapKnownError(err)
-		}
-	}
-
-	for _, change := range input.GlobalSecondaryIndexUpdates {
-		if err := table.ApplyIndexChange(mapDynamoTotypesGlobalSecondaryIndexUpdate(change)); err != nil {
-			return &dynamodb.UpdateTableOutput{
-				TableDescription: mapTypesToDynamoTableDescription(table.Description(tableName)),
-			}, mapKnownError(err)
-		}
+	// a failing change leaves the table as it was
+	err := table.UpdateIndexes(mapDynamoToTypesAttributeDefinitionSlice(input.AttributeDefinitions), mapDynamoToTypesGlobalSecondaryIndexUpdates(input.GlobalSecondaryIndexUpdates))
+	if err != nil {
+		return &dynamodb.UpdateTableOutput{
+			TableDescription: mapTypesToDynamoTableDescription(table.Description(tableName)),
+		}, mapKnownError(err)
 	}
 
 	return &dynamodb.UpdateTableOutput{
